@@ -62,4 +62,9 @@ CHECKS = {
    text="CoLss has one operator per LSS service function incl. the shared sequence counter; TLC checks over all request sequences of the alphabet (146k states in the thorough tier): configuration / inquiry / store act in configuration state only, at most one answer per request repeating the command specifier, waiting->configuration only by switch-global or a complete matching selective sequence, "
         "only node ids 1..127/255 and defined bit rates are ever configured. Every edge + probe (complete the selective / identify sequence, switch to configuration, inquire all, store, non-configured query, reset communication, boot-up identifier, inquire node id) and walks are replayed comparing all frames on 7E4h, COLssStore arguments, COLssLoad calls, the boot-up identifier, and that no LSS frame reaches the application callback.",
    note=MC_NOTE, technique="TLA+/TLC model checking + edge-cover behaviours replayed against the C code", ref="DESIGN.md section 8, C18"),
+ "C17": dict(
+   text="CoPara models RAM and NVM images, the group table, the 'all groups' fan-out of sub-index 1, load by reset type at initialisation / reset node / reset communication, power cycles and an NVM driver whose k-th next call returns a short count. TLC checks on every transition: a store writes exactly the RAM bytes of the addressed enabled groups and nothing else, wrong signatures change neither RAM nor NVM, "
+        "after a fault-free restart every group equals the stored image, a short count yields an abort or a node error. Edges + probe (error query, RAM and NVM dumps, restart, reset communication) and walks for three layouts are replayed comparing every NVM driver call (offset, length, count, data), RAM changes, COParaDefault calls, SDO verdicts and CONodeGetErr.",
+   note=MC_NOTE + " Named deviation InitLoadStopsAtFirstFault: after a faulty load of the reset-node groups at node start the RAM of the other groups is not asserted.",
+   technique="TLA+/TLC model checking + edge-cover behaviours (incl. fault injection and restarts) replayed against the C code", ref="DESIGN.md section 8, C17"),
 }
